@@ -60,6 +60,41 @@ func fixed() []fw.Case {
 			Round(ownh.KillEnv(a), ownh.Cleanup()).Round(ownh.Ctl(a, "STOP")).Round(ownh.Destroy(a, false, false, false))
 		add("fixed-cleanup", b)
 	}
+	// reuseUnlockedTasks: an environment is destroyed with keepTasks (after the STOP / RESET the destroy issues
+	// itself, which makes it slow enough) while another one, wanting the same task classes on the same hosts, is
+	// being created: in most runs the claimable tasks appear between the creation's pre-deployment Cleanup and
+	// its acquireTasks — a deployment with nothing to run (complete claim: finding reuse_full_claim_crash,
+	// fixed) or with one task to run (partial claim). Either way the claimed roles never become ACTIVE and the
+	// creation is given up at the deploy timeout; a later creation of the same shape finds nothing to claim.
+	for v := 0; v < 4; v++ {
+		b := &ownh.B{Reuse: true}
+		var a, c, d int
+		prep := "START"
+		switch v {
+		case 0, 3: // one task, wanted again: complete claim
+			a = b.Env("ok", []int{1}, ownh.OKT(1, 1))
+			c = b.Env("ok", []int{3}, ownh.OKT(1, 1))
+			d = b.Env("ok", []int{4}, ownh.OKT(1, 1))
+			if v == 3 {
+				prep = "" // destroyed from CONFIGURED: RESET, then the teardown
+			}
+		case 1: // two tasks, both wanted again plus a third class: partial claim
+			a = b.Env("ok", []int{1}, ownh.OKT(1, 1), ownh.OKT(2, 2))
+			c = b.Env("ok", []int{3}, ownh.OKT(1, 1), ownh.OKT(2, 2), ownh.OKT(3, 3))
+			d = b.Env("ok", []int{4}, ownh.OKT(1, 1), ownh.OKT(2, 2), ownh.OKT(3, 3))
+		default: // two tasks, both wanted again: complete claim of two
+			a = b.Env("ok", []int{1}, ownh.OKT(1, 1), ownh.OKT(2, 2))
+			c = b.Env("ok", []int{3}, ownh.OKT(1, 1), ownh.OKT(2, 2))
+			d = b.Env("ok", []int{4}, ownh.OKT(1, 1), ownh.OKT(2, 2))
+		}
+		b.Round(ownh.New(a))
+		if prep != "" {
+			b.Round(ownh.Ctl(a, prep))
+		}
+		b.Round(ownh.New(c), ownh.Destroy(a, false, true, true)).
+			Round(ownh.Cleanup()).Round(ownh.New(d)).Round(ownh.Destroy(c, false, true, false), ownh.Destroy(d, false, true, false)).Round(ownh.Cleanup())
+		add("fixed-reuse-claim", b)
+	}
 	return cs
 }
 
@@ -166,7 +201,8 @@ func init() {
 		Generate:   generate,
 		RunImpl:    ownh.RunRetry,
 		Nontrivial: nontrivial,
-		Rule: "fixed scenarios (refused creation next to live environments, 2–3 concurrent creations needing one detector, cleanup/kill requests naming owned tasks) " +
+		Rule: "fixed scenarios (refused creation next to live environments, 2–3 concurrent creations needing one detector, cleanup/kill requests naming owned tasks, " +
+			"with reuseUnlockedTasks a creation concurrent with a keepTasks destroy of an environment holding the task classes it wants) " +
 			"then random scenarios: 2–4 environments with 1–3 tasks each on 4 shared hosts / 3 detectors, 3–7 rounds of 1–3 concurrently issued requests " +
 			"(create, START/STOP/RESET/CONFIGURE, destroy with random force/allowInRunningState/keepTasks, CleanupTasks for all or for one environment's tasks), " +
 			"12% of roles with a scripted launch/configure/transition failure, 8% of environments with DESTROY hooks, 10% of scenarios with reuseUnlockedTasks; " +
